@@ -211,7 +211,7 @@ func judge(sc *Scenario, out *ChildOut) *Verdict {
 			}
 		case "ret":
 			switch e.Op {
-			case "enable", "disable":
+			case "enable", "disable", "set-on", "set-off":
 				if o := openOp[e.Who]; o != nil {
 					o.ret = e.Seq
 					delete(openOp, e.Who)
@@ -227,8 +227,8 @@ func judge(sc *Scenario, out *ChildOut) *Verdict {
 			}
 		case "call":
 			switch e.Op {
-			case "enable", "disable":
-				o := &flagOp{mod: fStr(e.F, "m"), on: e.Op == "enable", call: e.Seq,
+			case "enable", "disable", "set-on", "set-off":
+				o := &flagOp{mod: fStr(e.F, "m"), on: e.Op == "enable" || e.Op == "set-on", call: e.Seq,
 					inPrep: e.Who == "globalprep" || strings.HasPrefix(e.Who, "prep:")}
 				ops = append(ops, o)
 				openOp[e.Who] = o
